@@ -37,7 +37,9 @@ def load(R):
     ME = TEnt("MementoException")
     R.external("traceback.format_exception", returns=TObj("nn:list"), ensures=[])
     R.external("inspect.isclass", returns=TBool, ensures=["result == is_class(arg0)"])
-    R.external("importlib.import_module", returns=TObj("nn:module"), raises={"ModuleNotFoundError": [], "ValueError": []}, ensures=["same(result, module_named(arg0))"])
+    R.uf("importable", [TStr], TBool)
+    R.external("importlib.import_module", returns=TObj("nn:module"), raises={"ModuleNotFoundError": ["not importable(arg0)"], "ValueError": ["not importable(arg0)"]},
+               ensures=["importable(arg0)", "same(result, module_named(arg0))"])
     # a part of an exception name: no ':' (the separator) and single-line
     R.spec("PART", ["x"], "':' not in x and '\\n' not in x")
     R.spec("EXC_NAME", ["l", "m", "q"], "l + '::' + m + ':' + q")
@@ -58,20 +60,26 @@ def load(R):
         """Calling the resolved class with the message: the instance, or TypeError when the constructor does not take a single message."""
         if ex.branch(ufs["ctor_accepts_message"](fv.t)):
             return VObj(ufs["built"](fv.t, ex.to_term(args[0], TStr)))
-        raise PyRaise(VExc("TypeError", []))
+        # a constructor that does not take a single message: TypeError for a wrong signature, or whatever its own code raises
+        if ex.choose([z3.BoolVal(True), z3.BoolVal(True)]) == 0:
+            raise PyRaise(VExc("TypeError", []))
+        raise PyRaise(VExc("Exception", [], exact=False))
     R.opaque_call_hook = construct_exception
     # walking the dotted qualified name from the module: resolved(module, q) exists iff every step exists (assumed summary of the getattr loop's meaning)
+    R.spec("WALKABLE", ["m", "q"], "forall(int, lambda j: implies(0 <= j and j < len(q.split('.')), has_attr(walk(module_named(m), q.split('.'), j), q.split('.')[j])))")
+    R.spec("REBUILDABLE", ["l", "m", "q"], "l == 'python' and importable(m) and WALKABLE(m, q) and is_class(WALKED(m, q)) and ctor_accepts_message(WALKED(m, q))")
+    # From the docstring and the property ("a stored exception is converted back ... or returned as it is"): to_exception NEVER raises.  Whatever goes
+    # wrong while rebuilding -- module not importable in this process, a name that cannot be walked (a class defined inside a function has
+    # '<locals>' in its qualified name), something that is not a class, a constructor that rejects a single message in whatever way -- the
+    # MementoException itself is the result.
     R.contract(E + "to_exception", prop="C02", types={"self": ME}, returns=TObj(), ghost_params=GP,
                requires=["PART(ghost('l')) and PART(ghost('m')) and PART(ghost('q'))", "self.exception_name == EXC_NAME(ghost('l'), ghost('m'), ghost('q'))"],
                ensures=[
-                   # another language, or something that is not a class, or a class that cannot be rebuilt from a message: the MementoException itself
-                   "implies(ghost('l') != 'python', result is self)",
-                   "implies(ghost('l') == 'python' and not is_class(WALKED(ghost('m'), ghost('q'))), result is self)",
-                   "implies(ghost('l') == 'python' and is_class(WALKED(ghost('m'), ghost('q'))) and not ctor_accepts_message(WALKED(ghost('m'), ghost('q'))), result is self)",
+                   "implies(not REBUILDABLE(ghost('l'), ghost('m'), ghost('q')), result is self)",
                    # otherwise an instance of exactly the recorded class, built from the recorded message
-                   "implies(ghost('l') == 'python' and is_class(WALKED(ghost('m'), ghost('q'))) and ctor_accepts_message(WALKED(ghost('m'), ghost('q'))), "
+                   "implies(REBUILDABLE(ghost('l'), ghost('m'), ghost('q')), "
                    "same(result, built(WALKED(ghost('m'), ghost('q')), self.message + '. Original stack trace follows:\\n' + self.stack_trace)))",
                    ],
-               raises={"ModuleNotFoundError": [], "ValueError": [], "AttributeError": []},
-               loops={1: ["same(ref, walk(module, loop_list, loop_i))"]},
+               loops={1: ["same(ref, walk(module, loop_list, loop_i))",
+                          "forall(int, lambda j: implies(0 <= j and j < loop_i, has_attr(walk(module, loop_list, j), loop_list[j])))"]},
                labels={"regex_hints": HINT})
